@@ -23,6 +23,7 @@ CONSTANTS
   RSeq,           \* sequence of runner slot labels <<"R1","R2",...>>
   Limit,          \* mailbox size per queue, 0 = unbounded
   Trap,           \* BOOLEAN: process traps exit signals
+  WithSpawn,      \* BOOLEAN: the process is being spawned (with a registered name) by thread "P" while the senders act
   Fix_KillZombee, \* TRUE = Kill treats Zombee like Running (repaired P1)
   Mut_NoRecheck,  \* self-test mutant: no mailbox re-check after the sleep CAS
   Mut_WakeBeforePush \* self-test mutant: unused in Core (kept for MC files)
@@ -59,17 +60,19 @@ VARIABLES
   handled,    \* Seq of message ids in the order their handler was entered
   terms,      \* Seq of reasons the terminate callback was entered with
   unregs,     \* number of unregisterProcess executions
-  cbAfterTerm \* a handler callback was entered after terminate was entered
+  cbAfterTerm,\* a handler callback was entered after terminate was entered
+  sp          \* spawner thread "P" (node.spawn with a registered name): [pc, named]; pc = "none" when the process exists from the start
 
 vars == <<state, inTable, mbox, spc, sn, sres, rpc, rcur, rwhy, kpc, kres, tpc,
-          inCb, handled, terms, unregs, cbAfterTerm>>
+          inCb, handled, terms, unregs, cbAfterTerm, sp>>
 
 NoCell == [id |-> "", kind |-> "", linked |-> FALSE]
 MsgId(s, n) == s \o ":" \o ToString(n)
 Alive(st) == st \in {"init", "sleep", "running", "wait"}
 
 Init ==
-  /\ state = "sleep" /\ inTable = TRUE
+  /\ state = (IF WithSpawn THEN "init" ELSE "sleep") /\ inTable = ~WithSpawn
+  /\ sp = (IF WithSpawn THEN [pc |-> "start", named |-> FALSE] ELSE [pc |-> "none", named |-> FALSE])
   /\ mbox = [q \in QSet |-> <<>>]
   /\ spc = [s \in Senders |-> IF Len(Ops[s]) = 0 THEN "done" ELSE "send.lookup"]
   /\ sn = [s \in Senders |-> 1]
@@ -96,20 +99,22 @@ Finish(s, res) ==
   /\ sn' = [sn EXCEPT ![s] = @ + 1]
   /\ spc' = [spc EXCEPT ![s] = IF sn[s] >= Len(Ops[s]) THEN "done" ELSE "send.lookup"]
 
+\* a send by pid reads the process table, a send by name the name table
+Present(s) == IF Op(s).via = "name" THEN sp.named ELSE inTable
 SLookup(s) ==
   /\ spc[s] = "send.lookup"
-  /\ IF inTable
+  /\ IF Present(s)
        THEN /\ spc' = [spc EXCEPT ![s] = IF IsExit(s) THEN "mpsc.push" ELSE "send.alive"]
             /\ UNCHANGED <<sres, sn>>
        ELSE Finish(s, "unknown")
-  /\ UNCHANGED <<state, inTable, mbox, rpc, rcur, rwhy, kpc, kres, tpc, inCb, handled, terms, unregs, cbAfterTerm>>
+  /\ UNCHANGED <<state, inTable, mbox, rpc, rcur, rwhy, kpc, kres, tpc, inCb, handled, terms, unregs, cbAfterTerm, sp>>
 
 SAlive(s) ==
   /\ spc[s] = "send.alive"
   /\ IF Alive(state)
        THEN spc' = [spc EXCEPT ![s] = "mpsc.push"] /\ UNCHANGED <<sres, sn>>
        ELSE Finish(s, "terminated")
-  /\ UNCHANGED <<state, inTable, mbox, rpc, rcur, rwhy, kpc, kres, tpc, inCb, handled, terms, unregs, cbAfterTerm>>
+  /\ UNCHANGED <<state, inTable, mbox, rpc, rcur, rwhy, kpc, kres, tpc, inCb, handled, terms, unregs, cbAfterTerm, sp>>
 
 \* queueLimitMPSC.Push: length check, then head swap (the cell is not yet reachable from the tail)
 SPush(s) ==
@@ -120,7 +125,7 @@ SPush(s) ==
        ELSE /\ mbox' = [mbox EXCEPT ![q] = Append(@, [id |-> MsgId(s, sn[s]), kind |-> Op(s).kind, linked |-> FALSE])]
             /\ spc' = [spc EXCEPT ![s] = "mpsc.link"]
             /\ UNCHANGED <<sres, sn>>
-  /\ UNCHANGED <<state, inTable, rpc, rcur, rwhy, kpc, kres, tpc, inCb, handled, terms, unregs, cbAfterTerm>>
+  /\ UNCHANGED <<state, inTable, rpc, rcur, rwhy, kpc, kres, tpc, inCb, handled, terms, unregs, cbAfterTerm, sp>>
 
 \* store old_head.next: the cell becomes reachable
 SLink(s) ==
@@ -129,7 +134,7 @@ SLink(s) ==
          i == CHOOSE j \in 1..Len(mbox[q]) : mbox[q][j].id = MsgId(s, sn[s])
      IN mbox' = [mbox EXCEPT ![q][i].linked = TRUE]
   /\ spc' = [spc EXCEPT ![s] = "run.wake"]
-  /\ UNCHANGED <<state, inTable, sres, sn, rpc, rcur, rwhy, kpc, kres, tpc, inCb, handled, terms, unregs, cbAfterTerm>>
+  /\ UNCHANGED <<state, inTable, sres, sn, rpc, rcur, rwhy, kpc, kres, tpc, inCb, handled, terms, unregs, cbAfterTerm, sp>>
 
 FreeSlots == {i \in 1..Len(RSeq) : rpc[RSeq[i]] \in {"none", "done"}}
 LowestFree == RSeq[CHOOSE i \in FreeSlots : \A j \in FreeSlots : i <= j]
@@ -143,7 +148,7 @@ SWake(s) ==
             /\ state' = "running"
        ELSE UNCHANGED <<state, rpc>>
   /\ Finish(s, "ok")
-  /\ UNCHANGED <<inTable, mbox, rcur, rwhy, kpc, kres, tpc, inCb, handled, terms, unregs, cbAfterTerm>>
+  /\ UNCHANGED <<inTable, mbox, rcur, rwhy, kpc, kres, tpc, inCb, handled, terms, unregs, cbAfterTerm, sp>>
 
 -----------------------------------------------------------------------------
 (* Runner goroutine: process.run() body + act.Actor.ProcessRun loop         *)
@@ -159,7 +164,7 @@ Visible(q) == VisPrefix(mbox[q])
 RBegin(r) ==
   /\ rpc[r] = "run.begin"
   /\ rpc' = [rpc EXCEPT ![r] = "actor.pick"]
-  /\ UNCHANGED <<state, inTable, mbox, spc, sn, sres, rcur, rwhy, kpc, kres, tpc, inCb, handled, terms, unregs, cbAfterTerm>>
+  /\ UNCHANGED <<state, inTable, mbox, spc, sn, sres, rcur, rwhy, kpc, kres, tpc, inCb, handled, terms, unregs, cbAfterTerm, sp>>
 
 \* the three non-log classes in priority order
 PickClass == CHOOSE i \in 1..3 : VisibleHead(QSeq[i]) /\ \A k \in 1..(i-1) : ~VisibleHead(QSeq[k])
@@ -190,7 +195,7 @@ RPick(r) ==
          ELSE /\ rpc' = [rpc EXCEPT ![r] = "run.sleep"]
               /\ UNCHANGED <<mbox, rcur, rwhy, inCb, cbAfterTerm>>
   /\ handled' = IF rpc'[r] = "cb" THEN Append(handled, rcur'[r].id) ELSE handled
-  /\ UNCHANGED <<state, inTable, spc, sn, sres, kpc, kres, tpc, terms, unregs>>
+  /\ UNCHANGED <<state, inTable, spc, sn, sres, kpc, kres, tpc, terms, unregs, sp>>
 
 \* handler body and return
 RCb(r) ==
@@ -201,7 +206,7 @@ RCb(r) ==
      IF k = "err" THEN rpc' = [rpc EXCEPT ![r] = "run.term"] /\ rwhy' = [rwhy EXCEPT ![r] = "err:" \o rcur[r].id]
      ELSE IF k = "panic" THEN rpc' = [rpc EXCEPT ![r] = "run.term"] /\ rwhy' = [rwhy EXCEPT ![r] = "panic"]
      ELSE rpc' = [rpc EXCEPT ![r] = "actor.pick"] /\ UNCHANGED rwhy
-  /\ UNCHANGED <<state, inTable, mbox, spc, sn, sres, kpc, kres, tpc, handled, terms, unregs, cbAfterTerm>>
+  /\ UNCHANGED <<state, inTable, mbox, spc, sn, sres, kpc, kres, tpc, handled, terms, unregs, cbAfterTerm, sp>>
 
 \* the handler of a "call" message: up to the state CAS of waitResponse (the runner stays inside the callback)
 \* (process.CallPID refuses at once unless the state word is running: then the handler just returns)
@@ -210,7 +215,7 @@ RCbCall(r) ==
   /\ IF state = "running"
        THEN rpc' = [rpc EXCEPT ![r] = "wait.enter"] /\ UNCHANGED <<inCb, rcur>>
        ELSE rpc' = [rpc EXCEPT ![r] = "actor.pick"] /\ inCb' = inCb \ {r} /\ rcur' = [rcur EXCEPT ![r] = NoCell]
-  /\ UNCHANGED <<state, inTable, mbox, spc, sn, sres, rwhy, kpc, kres, tpc, handled, terms, unregs, cbAfterTerm>>
+  /\ UNCHANGED <<state, inTable, mbox, spc, sn, sres, rwhy, kpc, kres, tpc, handled, terms, unregs, cbAfterTerm, sp>>
 
 \* CAS running -> wait; on failure (killed meanwhile) the call returns an error and the handler returns
 RWaitEnter(r) ==
@@ -218,7 +223,7 @@ RWaitEnter(r) ==
   /\ IF state = "running"
        THEN state' = "wait" /\ rpc' = [rpc EXCEPT ![r] = "wait.leave"] /\ UNCHANGED <<inCb, rcur>>
        ELSE UNCHANGED state /\ rpc' = [rpc EXCEPT ![r] = "actor.pick"] /\ inCb' = inCb \ {r} /\ rcur' = [rcur EXCEPT ![r] = NoCell]
-  /\ UNCHANGED <<inTable, mbox, spc, sn, sres, rwhy, kpc, kres, tpc, handled, terms, unregs, cbAfterTerm>>
+  /\ UNCHANGED <<inTable, mbox, spc, sn, sres, rwhy, kpc, kres, tpc, handled, terms, unregs, cbAfterTerm, sp>>
 
 \* the response is there: CAS wait -> running (fails if the process was killed while waiting); the handler returns
 RWaitLeave(r) ==
@@ -227,7 +232,7 @@ RWaitLeave(r) ==
   /\ rpc' = [rpc EXCEPT ![r] = "actor.pick"]
   /\ inCb' = inCb \ {r}
   /\ rcur' = [rcur EXCEPT ![r] = NoCell]
-  /\ UNCHANGED <<inTable, mbox, spc, sn, sres, rwhy, kpc, kres, tpc, handled, terms, unregs, cbAfterTerm>>
+  /\ UNCHANGED <<inTable, mbox, spc, sn, sres, rwhy, kpc, kres, tpc, handled, terms, unregs, cbAfterTerm, sp>>
 
 RSleep(r) ==
   /\ rpc[r] = "run.sleep"
@@ -237,19 +242,19 @@ RSleep(r) ==
        ELSE \* killed meanwhile (zombee)
             /\ rpc' = [rpc EXCEPT ![r] = "run.zombie"]
             /\ UNCHANGED state
-  /\ UNCHANGED <<inTable, mbox, spc, sn, sres, rcur, rwhy, kpc, kres, tpc, inCb, handled, terms, unregs, cbAfterTerm>>
+  /\ UNCHANGED <<inTable, mbox, spc, sn, sres, rcur, rwhy, kpc, kres, tpc, inCb, handled, terms, unregs, cbAfterTerm, sp>>
 
 RRecheck(r) ==
   /\ rpc[r] = "run.recheck"
   /\ rpc' = [rpc EXCEPT ![r] = IF \E q \in QSet : VisibleHead(q) THEN "run.reacquire" ELSE "done"]
-  /\ UNCHANGED <<state, inTable, mbox, spc, sn, sres, rcur, rwhy, kpc, kres, tpc, inCb, handled, terms, unregs, cbAfterTerm>>
+  /\ UNCHANGED <<state, inTable, mbox, spc, sn, sres, rcur, rwhy, kpc, kres, tpc, inCb, handled, terms, unregs, cbAfterTerm, sp>>
 
 RReacquire(r) ==
   /\ rpc[r] = "run.reacquire"
   /\ IF state = "sleep"
        THEN state' = "running" /\ rpc' = [rpc EXCEPT ![r] = "actor.pick"]
        ELSE UNCHANGED state /\ rpc' = [rpc EXCEPT ![r] = "done"]
-  /\ UNCHANGED <<inTable, mbox, spc, sn, sres, rcur, rwhy, kpc, kres, tpc, inCb, handled, terms, unregs, cbAfterTerm>>
+  /\ UNCHANGED <<inTable, mbox, spc, sn, sres, rcur, rwhy, kpc, kres, tpc, inCb, handled, terms, unregs, cbAfterTerm, sp>>
 
 \* swap to terminated elects the finaliser
 RTerm(r) ==
@@ -257,12 +262,12 @@ RTerm(r) ==
   /\ state' = "terminated"
   /\ rpc' = [rpc EXCEPT ![r] = IF state = "terminated" THEN "done" ELSE "unreg.delete"]
   /\ rwhy' = [rwhy EXCEPT ![r] = IF rpc[r] = "run.zombie" THEN "kill" ELSE @]
-  /\ UNCHANGED <<inTable, mbox, spc, sn, sres, rcur, kpc, kres, tpc, inCb, handled, terms, unregs, cbAfterTerm>>
+  /\ UNCHANGED <<inTable, mbox, spc, sn, sres, rcur, kpc, kres, tpc, inCb, handled, terms, unregs, cbAfterTerm, sp>>
 
 \* unregisterProcess, then entry of the terminate callback
 RUnreg(r) ==
   /\ rpc[r] = "unreg.delete"
-  /\ inTable' = FALSE /\ unregs' = unregs + 1
+  /\ inTable' = FALSE /\ unregs' = unregs + 1 /\ sp' = [sp EXCEPT !.named = FALSE]
   /\ rpc' = [rpc EXCEPT ![r] = "term"]
   /\ inCb' = inCb \cup {r}
   /\ terms' = Append(terms, rwhy[r])
@@ -272,7 +277,7 @@ RTermCb(r) ==
   /\ rpc[r] = "term"
   /\ inCb' = inCb \ {r}
   /\ rpc' = [rpc EXCEPT ![r] = "done"]
-  /\ UNCHANGED <<state, inTable, mbox, spc, sn, sres, rcur, rwhy, kpc, kres, tpc, handled, terms, unregs, cbAfterTerm>>
+  /\ UNCHANGED <<state, inTable, mbox, spc, sn, sres, rcur, rwhy, kpc, kres, tpc, handled, terms, unregs, cbAfterTerm, sp>>
 
 -----------------------------------------------------------------------------
 (* Node.Kill *)
@@ -280,20 +285,20 @@ RTermCb(r) ==
 KStart(k) ==
   /\ kpc[k] = "start"
   /\ kpc' = [kpc EXCEPT ![k] = "kill.lookup"]
-  /\ UNCHANGED <<state, inTable, mbox, spc, sn, sres, rpc, rcur, rwhy, kres, tpc, inCb, handled, terms, unregs, cbAfterTerm>>
+  /\ UNCHANGED <<state, inTable, mbox, spc, sn, sres, rpc, rcur, rwhy, kres, tpc, inCb, handled, terms, unregs, cbAfterTerm, sp>>
 
 \* a fault thread may stay away, otherwise quiescent-state invariants would be vacuous
 KSkip(k) ==
   /\ kpc[k] = "start"
   /\ kpc' = [kpc EXCEPT ![k] = "done"]
   /\ kres' = [kres EXCEPT ![k] = "skip"]
-  /\ UNCHANGED <<state, inTable, mbox, spc, sn, sres, rpc, rcur, rwhy, tpc, inCb, handled, terms, unregs, cbAfterTerm>>
+  /\ UNCHANGED <<state, inTable, mbox, spc, sn, sres, rpc, rcur, rwhy, tpc, inCb, handled, terms, unregs, cbAfterTerm, sp>>
 
 KLookup(k) ==
   /\ kpc[k] = "kill.lookup"
   /\ IF inTable THEN kpc' = [kpc EXCEPT ![k] = "kill.zombie"] /\ UNCHANGED kres
      ELSE kpc' = [kpc EXCEPT ![k] = "done"] /\ kres' = [kres EXCEPT ![k] = "unknown"]
-  /\ UNCHANGED <<state, inTable, mbox, spc, sn, sres, rpc, rcur, rwhy, tpc, inCb, handled, terms, unregs, cbAfterTerm>>
+  /\ UNCHANGED <<state, inTable, mbox, spc, sn, sres, rpc, rcur, rwhy, tpc, inCb, handled, terms, unregs, cbAfterTerm, sp>>
 
 KZombie(k) ==
   /\ kpc[k] = "kill.zombie"
@@ -304,14 +309,14 @@ KZombie(k) ==
                 ELSE "kill.term"
      IN /\ kpc' = [kpc EXCEPT ![k] = nxt]
         /\ kres' = [kres EXCEPT ![k] = IF nxt = "done" THEN "ok" ELSE @]
-  /\ UNCHANGED <<inTable, mbox, spc, sn, sres, rpc, rcur, rwhy, tpc, inCb, handled, terms, unregs, cbAfterTerm>>
+  /\ UNCHANGED <<inTable, mbox, spc, sn, sres, rpc, rcur, rwhy, tpc, inCb, handled, terms, unregs, cbAfterTerm, sp>>
 
 KRestore(k) ==
   /\ kpc[k] = "kill.restore"
   /\ state' = "terminated"
   /\ kpc' = [kpc EXCEPT ![k] = "done"]
   /\ kres' = [kres EXCEPT ![k] = "ok"]
-  /\ UNCHANGED <<inTable, mbox, spc, sn, sres, rpc, rcur, rwhy, tpc, inCb, handled, terms, unregs, cbAfterTerm>>
+  /\ UNCHANGED <<inTable, mbox, spc, sn, sres, rpc, rcur, rwhy, tpc, inCb, handled, terms, unregs, cbAfterTerm, sp>>
 
 KTerm(k) ==
   /\ kpc[k] = "kill.term"
@@ -319,12 +324,12 @@ KTerm(k) ==
   /\ IF state = "terminated"
        THEN kpc' = [kpc EXCEPT ![k] = "done"] /\ kres' = [kres EXCEPT ![k] = "ok"]
        ELSE kpc' = [kpc EXCEPT ![k] = "unreg.delete"] /\ UNCHANGED kres
-  /\ UNCHANGED <<inTable, mbox, spc, sn, sres, rpc, rcur, rwhy, tpc, inCb, handled, terms, unregs, cbAfterTerm>>
+  /\ UNCHANGED <<inTable, mbox, spc, sn, sres, rpc, rcur, rwhy, tpc, inCb, handled, terms, unregs, cbAfterTerm, sp>>
 
 \* unregisterProcess, start the terminate goroutine, return
 KUnreg(k) ==
   /\ kpc[k] = "unreg.delete"
-  /\ inTable' = FALSE /\ unregs' = unregs + 1
+  /\ inTable' = FALSE /\ unregs' = unregs + 1 /\ sp' = [sp EXCEPT !.named = FALSE]
   /\ kpc' = [kpc EXCEPT ![k] = "done"]
   /\ kres' = [kres EXCEPT ![k] = "ok"]
   /\ tpc' = [tpc EXCEPT ![TOf[k]] = "kill.tbegin"]
@@ -335,15 +340,44 @@ TBegin(t) ==
   /\ tpc' = [tpc EXCEPT ![t] = "term"]
   /\ inCb' = inCb \cup {t}
   /\ terms' = Append(terms, "kill")
-  /\ UNCHANGED <<state, inTable, mbox, spc, sn, sres, rpc, rcur, rwhy, kpc, kres, handled, unregs, cbAfterTerm>>
+  /\ UNCHANGED <<state, inTable, mbox, spc, sn, sres, rpc, rcur, rwhy, kpc, kres, handled, unregs, cbAfterTerm, sp>>
 
 TTermCb(t) ==
   /\ tpc[t] = "term"
   /\ inCb' = inCb \ {t}
   /\ tpc' = [tpc EXCEPT ![t] = "done"]
-  /\ UNCHANGED <<state, inTable, mbox, spc, sn, sres, rpc, rcur, rwhy, kpc, kres, handled, terms, unregs, cbAfterTerm>>
+  /\ UNCHANGED <<state, inTable, mbox, spc, sn, sres, rpc, rcur, rwhy, kpc, kres, handled, terms, unregs, cbAfterTerm, sp>>
 
 -----------------------------------------------------------------------------
+(* node.spawn (with Register): names.LoadOrStore, ProcessInit (a callback), [spawn.register] state := sleep,
+   processes.Store, p.run() [run.wake].  Senders that address the name reach the process while it is in the init state:
+   their push succeeds, their wake-up CAS fails, and the final p.run() must pick the messages up. *)
+PStart ==
+  /\ sp.pc = "start"
+  /\ sp' = [pc |-> "init", named |-> TRUE]
+  /\ inCb' = inCb \cup {"P"}
+  /\ UNCHANGED <<state, inTable, mbox, spc, sn, sres, rpc, rcur, rwhy, kpc, kres, tpc, handled, terms, unregs, cbAfterTerm>>
+PInitDone ==
+  /\ sp.pc = "init"
+  /\ sp' = [sp EXCEPT !.pc = "spawn.register"]
+  /\ inCb' = inCb \ {"P"}
+  /\ UNCHANGED <<state, inTable, mbox, spc, sn, sres, rpc, rcur, rwhy, kpc, kres, tpc, handled, terms, unregs, cbAfterTerm>>
+PRegister ==
+  /\ sp.pc = "spawn.register"
+  /\ state' = "sleep" /\ inTable' = TRUE
+  /\ sp' = [sp EXCEPT !.pc = "run.wake"]
+  /\ UNCHANGED <<mbox, spc, sn, sres, rpc, rcur, rwhy, kpc, kres, tpc, inCb, handled, terms, unregs, cbAfterTerm>>
+PWake ==
+  /\ sp.pc = "run.wake"
+  /\ IF state = "sleep"
+       THEN /\ FreeSlots # {}
+            /\ rpc' = [rpc EXCEPT ![LowestFree] = "run.begin"]
+            /\ state' = "running"
+       ELSE UNCHANGED <<state, rpc>>
+  /\ sp' = [sp EXCEPT !.pc = "done"]
+  /\ UNCHANGED <<inTable, mbox, spc, sn, sres, rcur, rwhy, kpc, kres, tpc, inCb, handled, terms, unregs, cbAfterTerm>>
+PStep == PStart \/ PInitDone \/ PRegister \/ PWake
+
 SStep(s) == SLookup(s) \/ SAlive(s) \/ SPush(s) \/ SLink(s) \/ SWake(s)
 RStep(r) == RBegin(r) \/ RPick(r) \/ RCb(r) \/ RCbCall(r) \/ RWaitEnter(r) \/ RWaitLeave(r) \/ RSleep(r) \/ RRecheck(r) \/ RReacquire(r)
             \/ RTerm(r) \/ RUnreg(r) \/ RTermCb(r)
@@ -355,6 +389,7 @@ Next ==
   \/ \E r \in Runners : RStep(r)
   \/ \E k \in Killers : KStep(k)
   \/ \E t \in TThreads : TStep(t)
+  \/ PStep
 
 Spec == Init /\ [][Next]_vars
 
@@ -387,7 +422,8 @@ ValidReasons ==
 ReasonRight == \A i \in 1..Len(terms) : terms[i] \in ValidReasons
 
 ActiveRunners == {r \in Runners : rpc[r] \notin {"none", "done"}}
-Quiescent == /\ \A s \in Senders : spc[s] = "done"
+Quiescent == /\ sp.pc \in {"none", "done"}
+             /\ \A s \in Senders : spc[s] = "done"
              /\ \A k \in Killers : kpc[k] = "done"
              /\ \A t \in TThreads : tpc[t] \in {"none", "done"}
              /\ ActiveRunners = {}
@@ -421,5 +457,5 @@ SenderFifo == \A i, j \in 1..Len(handled) :
 \* (checked as an action property in the trace specs; in the Core it holds by construction of RPick)
 
 \* exhaustive-run view: the observation variables do not influence behaviour
-View == <<state, inTable, mbox, spc, sn, rpc, rcur, rwhy, kpc, kres, tpc, inCb, Len(terms), unregs, cbAfterTerm>>
+View == <<state, inTable, mbox, spc, sn, rpc, rcur, rwhy, kpc, kres, tpc, inCb, Len(terms), unregs, cbAfterTerm, sp>>
 =============================================================================
